@@ -41,6 +41,7 @@ type Step struct {
 	Op     string `json:"op"`
 	Client int    `json:"client,omitempty"`
 	Wait   bool   `json:"wait,omitempty"`
+	N      int    `json:"n,omitempty"` // burst: that many broadcasts back to back
 }
 
 type Plan struct {
@@ -49,7 +50,7 @@ type Plan struct {
 }
 
 var rec = ev.New("C19", "c19.churn",
-	"plans of 3..25 operations (subscribe, cancel with/without waiting for the handler to exit, stall a reader, broadcast, park/release deliveries at the verif hook's yield point, pause) over up to 5 clients of one sse.Handler, each plan executed in its own child process (a panic in a delivery goroutine cannot be recovered) built with -race; "+
+	"plans of 3..25 operations (subscribe, cancel with/without waiting for the handler to exit, stall a reader, broadcast, bursts of 3-120 broadcasts back to back, park/release deliveries at the verif hook's yield point, pause) over up to 5 clients of one sse.Handler, each plan executed in its own child process (a panic in a delivery goroutine cannot be recovered) built with -race; "+
 		"oracle: the child survives with no panic/race/deadlock, every Send returns within 2 s, and every client that was registered and neither cancelled nor stalled receives every event broadcast while it was registered (as a multiset: order between back-to-back broadcasts is not promised). "+
 		"Non-trivial = the plan cancels a client between a broadcast whose delivery is parked and its release (the 'unregistered before delivery' schedule, forced), or broadcasts while a client is stalled; distinct by plan")
 
@@ -170,23 +171,27 @@ func runPlan(p Plan) (result string) {
 			c.mu.Unlock()
 			c.stallSet = true
 			delete(expect, st.Client)
-		case "send":
-			sendN++
-			name := fmt.Sprintf("reload-%d", sendN)
-			for i := range clients {
-				if active(i) {
-					expect[i] = append(expect[i], name)
+		case "send", "burst":
+			n := 1
+			if st.Op == "burst" {
+				n = max(2, st.N)
+			}
+			for k := 0; k < n; k++ {
+				sendN++
+				name := fmt.Sprintf("reload-%d", sendN)
+				for i := range clients {
+					if active(i) {
+						expect[i] = append(expect[i], name)
+					}
+				}
+				done := make(chan struct{})
+				go func() { h.Send("message", name); close(done) }()
+				select {
+				case <-done:
+				case <-time.After(2 * time.Second):
+					return fmt.Sprintf("fail:step %d: Send blocked for more than 2s", si)
 				}
 			}
-			t0 := time.Now()
-			done := make(chan struct{})
-			go func() { h.Send("message", name); close(done) }()
-			select {
-			case <-done:
-			case <-time.After(2 * time.Second):
-				return fmt.Sprintf("fail:step %d: Send blocked for more than 2s", si)
-			}
-			_ = t0
 		case "park":
 			gateMu.Lock()
 			if gate == nil {
@@ -318,8 +323,12 @@ func init() {
 }
 
 var genStep = rapid.Custom(func(t *rapid.T) Step {
-	op := rapid.SampledFrom([]string{"sub", "sub", "sub", "cancel", "cancel", "stall", "send", "send", "send", "park", "release", "pause"}).Draw(t, "op")
-	return Step{Op: op, Client: rapid.IntRange(0, 4).Draw(t, "client"), Wait: rapid.Bool().Draw(t, "wait")}
+	op := rapid.SampledFrom([]string{"sub", "sub", "sub", "cancel", "cancel", "stall", "send", "send", "send", "park", "release", "pause", "burst"}).Draw(t, "op")
+	st := Step{Op: op, Client: rapid.IntRange(0, 4).Draw(t, "client"), Wait: rapid.Bool().Draw(t, "wait")}
+	if op == "burst" {
+		st.N = rapid.SampledFrom([]int{3, 9, 12, 40, 120}).Draw(t, "burst")
+	}
+	return st
 })
 
 // genHazard builds the forced schedule around generated noise: subscribe, park, send, cancel (wait
@@ -355,7 +364,7 @@ func nontrivial(p Plan) bool {
 			if live[st.Client] {
 				stalled[st.Client] = true
 			}
-		case "send":
+		case "send", "burst":
 			if parked && len(live) > 0 {
 				sentParked = true
 			}
